@@ -139,8 +139,10 @@ class Like(Op):
         return type(z).like(z, z.data, meta={"new": 1})
 
 
+# only ufuncs / operators: non-ufunc NumPy functions (np.real, np.sum ...) convert through
+# __array__, which computes by definition and is not a pulsarbat operation
 UNARY = ["negative", "conj", "square", "abs", "sqrt_abs", "exp_small", "op_neg", "op_abs",
-         "real", "isfinite"]
+         "isfinite"]
 
 
 @register
@@ -168,8 +170,6 @@ class Unary(Op):
             return -z
         if f == "op_abs":
             return abs(z)
-        if f == "real":
-            return np.real(z)
         if f == "isfinite":
             return np.isfinite(z)
         raise ValueError(f)
@@ -464,10 +464,12 @@ def _ref_freq(z, kind):
         return (z.min_freq - z.bandwidth).to(u.MHz)
     if kind == "inband":
         return z.center_freq + z.bandwidth / 4
+    if kind == "far":
+        return (z.center_freq * 1.5).to(u.MHz)
     raise ValueError(kind)
 
 
-REFS = ["none", "center", "above", "below", "inband"]
+REFS = ["none", "center", "above", "below", "inband", "far"]
 
 
 @register
@@ -491,8 +493,9 @@ class CoherentDD(Op):
             ref = a["ref"] if a["ref"] is not None else z.center_freq
             ch = np.stack([a["dm"].chirp_function(len(z), z.dt, f, ref, False)
                            for f in z.channel_freqs], axis=1)
-            if desc["chirp"] == "dask":
-                import dask.array as da
+            import dask.array as da
+            if desc["chirp"] == "dask" and isinstance(z.data, da.Array):
+                # (the NumPy twin always gets the NumPy chirp: it must stay eager)
                 ch = da.from_array(ch, chunks=(-1, 1))
             a["chirp"] = ch
         return a
@@ -580,8 +583,9 @@ class SigTransform(Op):
         if desc["meta"]:
             a["signal_kwargs"] = {"meta": {"tag": [1, 2]}}
         if desc["dkw"]:
-            a["dask_kwargs"] = {"meta": np.array((), dtype=z.dtype if desc["f"] != "power"
-                                               else np.zeros((), z.dtype).real.dtype)}
+            probe = np.zeros((1,), z.dtype)
+            out = _power(probe) if desc["f"] == "power" else _scale_add(probe, k=desc["k"])
+            a["dask_kwargs"] = {"meta": np.array((), dtype=out.dtype)}
         return a
 
     def call(self, pb, z, args, desc):
